@@ -7,6 +7,7 @@ package interp
 import (
 	"bytes"
 	"fmt"
+	"os"
 	"go/constant"
 	"go/token"
 	"go/types"
@@ -845,7 +846,7 @@ func concreteUnop(fr *frame, instr *ssa.UnOp, x value) value {
 // typeAssert checks whether dynamic type of itf is instr.AssertedType.
 // It returns the extracted value on success, and panics on failure,
 // unless instr.CommaOk, in which case it always returns a "value,ok" tuple.
-func typeAssert(instr *ssa.TypeAssert, itf iface) value {
+func typeAssert(fr *frame, instr *ssa.TypeAssert, itf iface) value {
 	var v value
 	err := ""
 	if itf.t == nil {
@@ -866,6 +867,9 @@ func typeAssert(instr *ssa.TypeAssert, itf iface) value {
 
 	if err != "" {
 		if !instr.CommaOk {
+			if debugStacks {
+				fmt.Fprintf(os.Stderr, "target type-assertion panic: %s\n%s", err, fr.i.targetStack())
+			}
 			panic(targetPanic{iface{gRuntimeErrorString, err}})
 		}
 		return tuple{zero(instr.AssertedType), false}
